@@ -215,10 +215,11 @@ def generate_dependent_dispatch(tup, handlers, next_call, slf, name, err, nerr):
                         for h, types in handlers
                     ]
                     keyed = reduce(lambda a, b: {**a, **b}, all_keys)
-                    if (
-                        len(keyed) == sum(map(len, all_keys))
-                        and len(featured) < 4
-                    ):
+                    if len(keyed) != sum(map(len, all_keys)):
+                        # Some keys are shared by several handlers: neither
+                        # a table nor a chain can report the ambiguity
+                        keyed = None
+                    elif len(featured) < 4:
                         exclusive = True
                         keyexpr = None
                     else:
